@@ -96,13 +96,14 @@ def mk1x1 (ts bd : Nat) (full : Bool) (m : MC) (t : TC) (p : CP) (Y U V : Nat) :
 def planeOf (spec : List String) : Option Plane :=
   match spec with
   | ["n", w, h, xd, yd, xp, yp, ts] => some (Plane.new w.toNat! h.toNat! xd.toNat! yd.toNat! xp.toNat! yp.toNat! ts.toNat!)
-  | ["r", stride, ah, w, h, xd, yd, xp, yp, xo, yo, len] =>
+  | ["r", stride, ah, w, h, xd, yd, xp, yp, xo, yo, len, _] =>
     some { data := Array.replicate len.toNat! 128,
            cfg := { stride := stride.toNat!, allocHeight := ah.toNat!, width := w.toNat!, height := h.toNat!, xdec := xd.toNat!,
                     ydec := yd.toNat!, xpad := xp.toNat!, ypad := yp.toNat!, xorigin := xo.toNat!, yorigin := yo.toNat! } }
   | _ => none
 
 def fillPlane (p : Plane) (seed pi maxv : Nat) : Plane :=
+  if maxv = 0 then { p with data := Array.replicate p.data.size 0 } else
   { p with data := (Array.range p.data.size).map fun i => mix (seed * 0x100000001 + pi * 0x1000000 + i) % (maxv + 1) }
 
 def hashV3s (d : Array V3) : Nat :=
